@@ -1,6 +1,7 @@
 import BevySyncModel.Proofs.Snap
 import BevySyncModel.Proofs.SnapLive
 import BevySyncModel.Proofs.Asset
+import BevySyncModel.Proofs.World
 import BevySyncModel.Generated.Snap
 import BevySyncModel.Generated.Sync
 import BevySyncModel.Generated.Ent
@@ -117,6 +118,56 @@ example :
     Quiescent (run s0 [.connect, .snapshot]) ∧ (run s0 [.connect, .snapshot]).host.present = false ∧
     (run s0 [.connect, .snapshot]).j.present = true := by
   decide
+
+/-- **C03, the whole world at once** (`Slice/World.lean`: all entities, in the order `build_full_sync` lists them — per
+archetype the spawns, then component by component; all parent pairs last — applied by a fresh joiner's handlers in that
+order).  Whatever the archetypes, their order and the order of entities and components inside them: the joiner knows
+exactly the host's tracked uuids, each once; holds, for every entity and component type, exactly the value the host listed
+(nothing where the host listed nothing); has every child under the host's parent.  No message of the snapshot is dropped as
+"unknown entity" (the snapshot is *scoped*: every message follows the spawns of the uuids it names). -/
+theorem C03_snapshot_rebuilds_world (w : WorldSnap.World) (hw : WorldSnap.WF w) :
+    let c := WorldSnap.applyAll {} (WorldSnap.snapshot w)
+    c.ents = WorldSnap.uuids w ∧
+    (∀ e ∈ WorldSnap.allEnts w, ∀ t, WorldSnap.getComp c e.uuid t = e.vals.lookup t) ∧
+    (∀ e ∈ WorldSnap.allEnts w, WorldSnap.getParent c e.uuid = e.parent) :=
+  WorldSnap.snapshot_rebuilds w hw
+
+theorem C03_snapshot_is_scoped (w : WorldSnap.World) (hw : WorldSnap.WF w) :
+    WorldSnap.Scoped [] (WorldSnap.snapshot w) :=
+  WorldSnap.snapshot_scoped w hw
+
+/-- the same for a **returning client** that still holds a world: it ends knowing every uuid of the host and holding every
+value and link the host listed; spawns of uuids it knows are ignored (no second replica). What it held and the host does
+not list any more is kept — the snapshot cannot say "drop it" (finding D16, whole-world form below) -/
+theorem C03_snapshot_on_returning_client (w : WorldSnap.World) (hw : WorldSnap.WF w) (c0 : WorldSnap.Client) :
+    let c := WorldSnap.applyAll c0 (WorldSnap.snapshot w)
+    (∀ u, u ∈ c.ents ↔ u ∈ c0.ents ∨ u ∈ WorldSnap.uuids w) ∧
+    (∀ e ∈ WorldSnap.allEnts w, ∀ t v, e.vals.lookup t = some v → WorldSnap.getComp c e.uuid t = some v) ∧
+    (∀ e ∈ WorldSnap.allEnts w, ∀ p, e.parent = some p → WorldSnap.getParent c e.uuid = some p) :=
+  WorldSnap.snapshot_on_returning w hw c0
+
+/-- **D16 on the whole-world model**: entity 99 was despawned on the host while the client was away; after the snapshot the
+returning client still knows it (and entity 11 keeps the link the host dropped) -/
+example :
+    let w : WorldSnap.World := [{ types := [7], ents := [{ uuid := 11, vals := [(7, 70)], parent := none }] }]
+    let c0 : WorldSnap.Client := { ents := [11, 99], comps := [(11, 7, 60)], parents := [(11, 99)] }
+    let c := WorldSnap.applyAll c0 (WorldSnap.snapshot w)
+    c.ents = [11, 99] ∧ WorldSnap.getComp c 11 7 = some 70 ∧ WorldSnap.getParent c 11 = some 99 := by decide
+
+/-- the order matters, which is why it is tied (`snapBuildOrder`, `snapSpawnBeforeComponents`, `snapParentsOfKnownPairs`): a
+list that names an entity before its spawn loses that message on the joiner -/
+example :
+    WorldSnap.getComp (WorldSnap.applyAll {} [.comp 1 2 3, .spawn 1]) 1 2 = none ∧
+    WorldSnap.getParent (WorldSnap.applyAll {} [.spawn 1, .parent 1 2, .spawn 2]) 1 = none := by decide
+
+/-- non-vacuity: two archetypes, a child listed before its parent's archetype, a value that could not be encoded -/
+example :
+    let w : WorldSnap.World :=
+      [{ types := [7, 9], ents := [{ uuid := 11, vals := [(7, 70), (9, 90)], parent := some 13 }, { uuid := 12, vals := [(9, 91)], parent := none }] },
+       { types := [7], ents := [{ uuid := 13, vals := [(7, 71)], parent := none }] }]
+    let c := WorldSnap.applyAll {} (WorldSnap.snapshot w)
+    c.ents = [11, 12, 13] ∧ WorldSnap.getComp c 11 9 = some 90 ∧ WorldSnap.getComp c 12 7 = none ∧
+    WorldSnap.getParent c 11 = some 13 := by decide
 
 /-- **D17 (recorded finding).** The snapshot for client 2 is built while the host is still downloading client 1's
 newer publication (7) that it has already relayed: client 2 queues the owner's announcement first and the host's
